@@ -22,8 +22,10 @@ def wanted (depth : Int) : PState := if depth = 0 then .d else .r
 def held (s : PState) : Bool := s == .d || s == .r
 
 /-- the k-th sequential request together with the class of the daemon's answer -/
-def served (i : Input) (o : Output) : List (Req × Cls) :=
-  (o.trace.zipIdx).map (fun rk => (rk.1, clsAt rk.1.isAdd (i.beh rk.2)))
+def servedT (i : Input) (tr : List Req) : List (Req × Cls) :=
+  (tr.zipIdx).map (fun rk => (rk.1, clsAt rk.1.isAdd (i.beh rk.2)))
+
+def served (i : Input) (o : Output) : List (Req × Cls) := servedT i o.trace
 
 /-- would a well-behaved daemon refuse this request in the prior state? -/
 def refuses (t : Table) : Req → Bool
@@ -57,50 +59,71 @@ def isPinning : Req → Bool
   | .add .. | .upd .. => true
   | _ => false
 
+/-- success is reported only if the daemon ended up in the asked state -/
+def cPinSound (i : Input) (o : Output) : Bool :=
+  !(i.op == .pin && o.res == .ok) || o.final i.cid == wanted i.depth
+
+def cUnpinSound (i : Input) (o : Output) : Bool :=
+  !(i.op == .unpin && o.res == .ok) || !held (o.final i.cid)
+
+/-- a truthfully answered PinLsCid reports the daemon's state (as far as the type filter shows it) -/
+def cLsTruthful (i : Input) (o : Output) : Bool :=
+  !(i.op == .ls && clsAt false (i.beh 0) == .honest) ||
+    o.res == .st (if i.table i.cid == wanted i.depth then i.table i.cid else .u)
+
+/-- daemon and transport failures are reported as errors -/
+def cErrorsReported (i : Input) (o : Output) : Bool :=
+  !(((served i o).zipIdx).any (fun x => failure i x.2 x.1.1 x.1.2)) || !isSuccess o.res
+
+/-- already pinned as asked (and the daemon says so): nothing is requested -/
+def cNoRequestWhenAlready (i : Input) (o : Output) : Bool :=
+  !(i.op == .pin && i.table i.cid == wanted i.depth && clsAt false (i.beh 0) == .honest) ||
+    (o.res == .ok && o.trace.all (isLsOf i.cid) && o.trace.length ≤ 1 && o.swarm.isEmpty &&
+      o.final i.cid == i.table i.cid)
+
+/-- unpinning what is not pinned is a success -/
+def cUnpinAbsentOk (i : Input) (o : Output) : Bool :=
+  !(i.op == .unpin && !i.unpinDisable && !held (i.table i.cid) &&
+      (clsAt false (i.beh 0) == .honest || clsAt false (i.beh 0) == .notPinned)) ||
+    o.res == .ok
+
+/-- a pin that makes no progress is given up with an error, by the connector itself -/
+def cStallTimesOut (i : Input) (o : Output) : Bool :=
+  !(i.op == .pin && (served i o).any (fun x => isPinning x.1 && (x.2 == .stall || x.2 == .noProgress))) ||
+    o.res == .err
+
+def cReturns (o : Output) : Bool := o.res != .hang && o.res != .panic
+
+/-- pin/update only from the pin's own, recursively pinned source, to the CID -/
+def cUpdateOnlyIfRecursive (i : Input) (o : Output) : Bool :=
+  o.trace.all (fun r => match r with
+    | .upd f t _ => i.op == .pin && i.src == some f && t == i.cid && i.table f == .r
+    | _ => true)
+
+def cUpdateUnpinFalse (o : Output) : Bool :=
+  o.trace.all (fun r => match r with
+    | .upd _ _ unpin => !unpin
+    | _ => true)
+
+/-- the source of a pin update stays as it was -/
+def cSourceKept (i : Input) (o : Output) : Bool :=
+  match i.src with
+  | some s => !(i.op == .pin) ||
+      ((s == i.cid || o.final s == i.table s) && (!(i.table s == .r) || o.final s == .r))
+  | none => true
+
 def clauses (i : Input) (o : Output) : List (String × Bool) :=
-  let sv := served i o
-  [ -- success is reported only if the daemon ended up in the asked state
-    ("pin_success_sound",
-      !(i.op == .pin && o.res == .ok) || o.final i.cid == wanted i.depth),
-    ("unpin_success_sound",
-      !(i.op == .unpin && o.res == .ok) || !held (o.final i.cid)),
-    -- a truthfully answered PinLsCid reports the daemon's state (as far as the type filter shows it)
-    ("ls_truthful",
-      !(i.op == .ls && clsAt false (i.beh 0) == .honest) ||
-        o.res == .st (if i.table i.cid == wanted i.depth then i.table i.cid else .u)),
-    -- daemon and transport failures are reported as errors
-    ("errors_reported",
-      !((sv.zipIdx).any (fun x => failure i x.2 x.1.1 x.1.2)) || !isSuccess o.res),
-    -- already pinned as asked (and the daemon says so): nothing is requested
-    ("no_request_when_already",
-      !(i.op == .pin && i.table i.cid == wanted i.depth && clsAt false (i.beh 0) == .honest) ||
-        (o.res == .ok && o.trace.all (isLsOf i.cid) && o.trace.length ≤ 1 && o.swarm.isEmpty &&
-          o.final i.cid == i.table i.cid)),
-    -- unpinning what is not pinned is a success
-    ("unpin_absent_ok",
-      !(i.op == .unpin && !i.unpinDisable && !held (i.table i.cid) &&
-          (clsAt false (i.beh 0) == .honest || clsAt false (i.beh 0) == .notPinned)) ||
-        o.res == .ok),
-    -- a pin that makes no progress is given up with an error, by the connector itself
-    ("stall_times_out",
-      !(i.op == .pin && sv.any (fun x => isPinning x.1 && (x.2 == .stall || x.2 == .noProgress))) ||
-        o.res == .err),
-    ("returns", o.res != .hang && o.res != .panic),
-    -- pin/update only from the pin's own, recursively pinned source, to the CID
-    ("update_only_if_recursive",
-      o.trace.all (fun r => match r with
-        | .upd f t _ => i.op == .pin && i.src == some f && t == i.cid && i.table f == .r
-        | _ => true)),
-    ("update_unpin_false",
-      o.trace.all (fun r => match r with
-        | .upd _ _ unpin => !unpin
-        | _ => true)),
-    -- the source of a pin update stays as it was
-    ("source_kept",
-      match i.src with
-      | some s => !(i.op == .pin) ||
-          ((s == i.cid || o.final s == i.table s) && (!(i.table s == .r) || o.final s == .r))
-      | none => true) ]
+  [ ("pin_success_sound", cPinSound i o),
+    ("unpin_success_sound", cUnpinSound i o),
+    ("ls_truthful", cLsTruthful i o),
+    ("errors_reported", cErrorsReported i o),
+    ("no_request_when_already", cNoRequestWhenAlready i o),
+    ("unpin_absent_ok", cUnpinAbsentOk i o),
+    ("stall_times_out", cStallTimesOut i o),
+    ("returns", cReturns o),
+    ("update_only_if_recursive", cUpdateOnlyIfRecursive i o),
+    ("update_unpin_false", cUpdateUnpinFalse o),
+    ("source_kept", cSourceKept i o) ]
 
 def holds (i : Input) (o : Output) : Bool := (clauses i o).all (·.2)
 
